@@ -229,6 +229,42 @@ type depRun struct {
 	preBad string
 }
 
+// applyDop runs one operation of a dependency-loader history on the implementation; *asked collects the module loaders asked
+func applyDop(w *world, dep px.Loader, dctx px.Context, d dopT, asked *[]int) (res string) {
+	defer func() {
+		if r := recover(); r != nil {
+			res = "DR (" + classifyPanic(r) + ") " + gNats(*asked)
+		}
+	}()
+	switch d.Kind {
+	case "Base":
+		return "DB (" + w.apply(*d.O) + ")"
+	case "LoadEntry":
+		e := dep.LoadEntry(dctx, d.N.impl())
+		return "DR (REntry " + gEntry(e) + ") " + gNats(*asked)
+	case "Load":
+		v, ok := px.Load(dctx, d.N.impl())
+		if !ok {
+			return "DR (RFound None) " + gNats(*asked)
+		}
+		return "DR (RFound (Some " + gVal(valOf(v)) + ")) " + gNats(*asked)
+	case "GetEntry":
+		return "DR (REntry " + gEntry(dep.GetEntry(d.N.impl())) + ") " + gNats(*asked)
+	case "Has":
+		return "DR (RBool " + lib.GBool(dep.HasEntry(d.N.impl())) + ") " + gNats(*asked)
+	case "Define":
+		e := dep.(px.DefiningLoader).SetEntry(d.N.impl(), px.NewLoaderEntry(vtable[d.V].v, nil))
+		return "DR (RDefined " + gVal(valOf(e.Value())) + ") " + gNats(*asked)
+	case "LoaderFor":
+		ml := dep.(px.DependencyLoader).LoaderFor(d.M)
+		if ml == nil {
+			return "DFor None"
+		}
+		return fmt.Sprintf("DFor (Some %d%%nat)", ml.(*stubModule).idx)
+	}
+	panic("bad dop " + d.Kind)
+}
+
 func runDep(c px.Context, dc depCase) (dr depRun) {
 	w := newWorld(c)
 	rw := newRefWorld()
@@ -249,40 +285,7 @@ func runDep(c px.Context, dc depCase) (dr depRun) {
 	ref := &refDep{w: rw, mods: dc.Mods, binds: map[string]int{}}
 	for i, d := range dc.Ds {
 		asked = asked[:0]
-		got := func() (res string) {
-			defer func() {
-				if r := recover(); r != nil {
-					res = "DR (" + classifyPanic(r) + ") " + gNats(asked)
-				}
-			}()
-			switch d.Kind {
-			case "Base":
-				return "DB (" + w.apply(*d.O) + ")"
-			case "LoadEntry":
-				e := dep.LoadEntry(dctx, d.N.impl())
-				return "DR (REntry " + gEntry(e) + ") " + gNats(asked)
-			case "Load":
-				v, ok := px.Load(dctx, d.N.impl())
-				if !ok {
-					return "DR (RFound None) " + gNats(asked)
-				}
-				return "DR (RFound (Some " + gVal(valOf(v)) + ")) " + gNats(asked)
-			case "GetEntry":
-				return "DR (REntry " + gEntry(dep.GetEntry(d.N.impl())) + ") " + gNats(asked)
-			case "Has":
-				return "DR (RBool " + lib.GBool(dep.HasEntry(d.N.impl())) + ") " + gNats(asked)
-			case "Define":
-				e := dep.(px.DefiningLoader).SetEntry(d.N.impl(), px.NewLoaderEntry(vtable[d.V].v, nil))
-				return "DR (RDefined " + gVal(valOf(e.Value())) + ") " + gNats(asked)
-			case "LoaderFor":
-				ml := dep.(px.DependencyLoader).LoaderFor(d.M)
-				if ml == nil {
-					return "DFor None"
-				}
-				return fmt.Sprintf("DFor (Some %d%%nat)", ml.(*stubModule).idx)
-			}
-			panic("bad dop " + d.Kind)
-		}()
+		got := applyDop(w, dep, dctx, d, &asked)
 		dr.outs = append(dr.outs, got)
 		if dr.bad >= 0 {
 			continue
